@@ -336,4 +336,5 @@ def main(tier):
     c09_more.r9_13(prog, chk)
     c09_more.r9_14(prog, chk)
     c09_more.r9_15(prog, chk)
+    c09_more.r9_16(prog, chk)
     return chk.finish()
